@@ -55,6 +55,11 @@ CORPUS = [
     ("R15", "import { trigger minute } from triggers;\n#[trigger on minute(5)]\nevent fn cb(_e: int) { println(\"cb\"); }\nfn main() { println(1 + 2); }"),
     ("R17", "fn main() { let p = (0 - 3) * 2; let q = (-3) * 2; let r = 3 * 2; let s = 0 * 5; let a = -4; let t = a * 3; println(p, q, r, s, t); }"),
     ("-", "fn main() { let i = 0; while i < 3 { i += 1; println(i * 2, i + 1, i - 1, i == 2, i != 2, i < 2, i >= 2); } println(1.5 + 2.25, 3f * 2f, 10.0 - 0.5, true, !false, (1 + 2) as float); }"),
+    # global initialisers must stay constant in every variant: each operator class at the top of an initialiser, with
+    # products (the one rewrite that is not constant) as operands on both sides
+    ("static", "let A: bool = 60 * 24 <= 2000;\nlet B = 3 * 4 > 2 * 5;\nlet C = 2 * 3 == 3 * 2;\nlet D = 2 * 8 != 4 * 4;\nlet E = 6 * 7 + 2 * 1;\nlet F = 5 * 2 - 3 * 3;\n"
+               "let G = (2 * 2) * (3 * 3);\nlet H = 9 * 3 >= 3 * 9;\nlet I = 1 * 0 < 0 * 1;\nlet J = true && 2 * 2 < 5;\nlet K = [2 * 3, 4 * 5];\nlet L = -(2 * 6);\n"
+               "fn main() { println(A, B, C, D, E, F, G, H, I, J, K, L); }"),
     ("-", "let g = [1, 2]; let h = \"s\"; fn main() { for x in g { if x == 1 { continue; } println(x, h); } let r = if g.len() > 1 { \"many\" } else { \"few\" }; println(r); }"),
 ]
 CORPUS_SEEDS = list(range(1, 21))
